@@ -23,7 +23,9 @@ def meta(tier, seed):
         "bounds": {"rows": [6, 8] if tier == "quick" else [6, 8, 10], "patterns": ["alt", "blocks", "late2"],
                    "test_size": [0.34, 0.5] if tier == "quick" else [0.25, 0.34, 0.5], "is_ordered": [True, False],
                    "batch_size": "0..|test|", "is_quick": [False, True], "seeds": 1 if tier == "quick" else 2,
-                   "pairs": "Radius/KNearest x {euclidean, chebyshev, cityblock} ordered pairs with different metrics"},
+                   "pairs": "Radius/KNearest x {euclidean, chebyshev, cityblock} ordered pairs with different metrics",
+                   "earlier_life": "additionally, for every Radius/KNearest/LSH combination and four others, bandits that "
+                                   "were fit on four rows and queried three times before the Simulator is built"},
         "assumptions": ["scikit-learn train_test_split is trusted to be a function of (n, test_size, random_state)"],
     }
 
@@ -32,6 +34,11 @@ def shards(tier, seed):
     out = []
     for ln, nn in A.combos(lints1=True):
         out.append({"kind": "single", "ln": ln, "nn": nn, "tier": tier, "seed": 61 + seed})
+    for ln, nn in A.combos(lints1=True):              # bandits that were trained and queried before the simulation
+        if nn in ("rad", "knn", "lsh") or (ln, nn) in (("eg5", "none"), ("lts1", "none"), ("eg5", "clu"), ("ts", "tree")):
+            if tier == "quick" and ln not in ("eg5", "ucb", "ts", "lts1"):
+                continue
+            out.append({"kind": "single", "used": True, "ln": ln, "nn": nn, "tier": tier, "seed": 61 + seed})
     for metric in ("seuclidean", "mahalanobis"):      # distances that depend on which rows are passed to scipy together
         out.append({"kind": "metric", "np": "rad", "metric": metric, "tier": tier, "seed": 61 + seed})
         out.append({"kind": "metric", "np": "knn", "metric": metric, "tier": tier, "seed": 61 + seed})
@@ -59,9 +66,9 @@ def param_space(tier, n, seed):
                         yield {"test_size": ts, "is_ordered": ordered, "batch_size": batch, "seed": sd, "is_quick": quick}
 
 
-def judge(cfgs, lns, dec, rew, X, params, acc=None):
+def judge(cfgs, lns, dec, rew, X, params, acc=None, used=False):
     try:
-        sim, originals = simrun.run_sim(cfgs, dec, rew, X, params)
+        sim, originals = simrun.run_sim(cfgs, dec, rew, X, params, used)
     except ValueError as e:
         if "Batch size" in str(e):
             return None
@@ -137,12 +144,12 @@ def run_shard(shard):
                 continue
             dec, rew, X = simrun.dataset(n, pattern, grid)
             for params in param_space(tier, n, shard["seed"]):
-                msgs = judge(cfgs, lns, dec, rew, X, params, acc)
+                msgs = judge(cfgs, lns, dec, rew, X, params, acc, bool(shard.get("used")))
                 if msgs is None:
                     acc.skip("batch size rejected by the Simulator (larger than its bound)")
                     continue
                 acc.traces += 1
-                key = (str(cfgs), n, pattern, str(params))
+                key = (str(cfgs), n, pattern, str(params), bool(shard.get("used")))
                 nbr = any(c["np"] and c["np"][0] in ("Radius", "KNearest", "LSHNearest") for c in cfgs)
                 acc.case(key if (params["batch_size"] > 0 or nbr or len(cfgs) > 1) else None)
                 acc.state(key)
@@ -153,9 +160,10 @@ def run_shard(shard):
                         "+".join("%s/%s" % (l, (c["np"] or ["none"])[0]) for l, c in zip(lns, cfgs)),
                         "pair" if len(cfgs) > 1 else "single", params["is_ordered"], min(params["batch_size"], 2),
                         params["is_quick"]),
-                        {"cfgs": cfgs, "lns": lns, "dec": dec, "rew": rew, "X": X, "params": params}, m)
+                        {"cfgs": cfgs, "lns": lns, "dec": dec, "rew": rew, "X": X, "params": params,
+                         "used": bool(shard.get("used"))}, m)
     return acc.result()
 
 
 def replay(w):
-    return judge(w["cfgs"], w["lns"], w["dec"], w["rew"], w["X"], w["params"]) or []
+    return judge(w["cfgs"], w["lns"], w["dec"], w["rew"], w["X"], w["params"], None, bool(w.get("used"))) or []
